@@ -175,6 +175,9 @@ def explore(ctx):
     ntext = 50 if ctx.quick() else 500
     texts = [gen_text(rnd) for _ in range(ntext)] + ['', '\n', '()', 'a', '(a)\n', '{{}}', "int a = (1 ? 2 : 3);\n", '0x10,', ' 0xfUL;', '# 1 "x"\n# 2 "y"\nz\n', '#\n42;\n', '# \n\n7 "f"\n', 'a\n  #\n 3\n', ' class a ; class b ; class c ; class d ; k = x;\n',
              'x; // c\n' * 10, '/*b*/y;\n' * 18,
+             'while (x) { a; break; } switch (y) { case 1: break; }\n', 'while(1){break;}for(;;){break ;}',
+             # characters at which str.splitlines() - unlike the file iterator - breaks a line: form feed, VT, FS/GS/RS, NEL, LS
+             'int a;\x0c\nint b;\n\n#\n', 'a;\x0b b;\n\x1c\n c;\x1d d\n', 'x\x85y\n\n z\u2028w\n',
              '(a,', 'f(x, y,', '{1, 22,', 'int a[2] =={1, 2};', ',a', 'x = a ? (b) : c,', 'namespace n {{}}']
     d = os.path.join(ctx.tmp, 'c07')
     os.makedirs(d, exist_ok=True)
@@ -456,6 +459,21 @@ def explore(ctx):
                             viol('bad-edit:peep', f'peep::{arg} on {text!r} state {st}: {out!r} is not one span replaced by {repl!r}', rep)
                     elif not is_subseq(out, text):
                         viol('bad-edit:peep', f'peep::c on {text!r}: {out!r} is not a subsequence', rep)
+                    else:
+                        # peep::c: `while (...) {body}` at the very start is replaced by its body (braces kept) without the
+                        # `break;` statements; everything behind the loop is preserved
+                        mm = re.match(r'while\s*', text)
+                        want_c = None
+                        if st['pos'] == 0 and mm:
+                            e1 = _part_at(PeepPass.balanced_parens_pattern, text, mm.end())
+                            if e1 is not None:
+                                m2 = re.compile(r'\s*').match(text, e1)
+                                from cvise.utils import nestedmatcher as nm_
+                                e2 = _part_at(nm_.BalancedPattern(nm_.BalancedExpr.curlies), text, m2.end())
+                                if e2 is not None:
+                                    want_c = re.sub(r'break\s*;', '', text[m2.end():e2]) + text[e2:]
+                        if want_c is not None and out != want_c:
+                            viol('bad-edit:peep', f'peep::c on {text!r}: produced {out!r}; the loop replaced by its body without break statements gives {want_c!r}', rep)
     n = 0
     for fn, cases in cs.by.items():
         bad = coq.corr_eval('c07' + fn[4:8], IMPORTS, fn, cases, shard=600)
